@@ -12,7 +12,8 @@ BadSigAll == {"t1b", "t4"}
 LowGasAll == {"t5"}
 PriceAll == [t \in TxAll |-> CASE t = "t1" -> 6 [] t = "t1b" -> 6 [] t = "t2" -> 5 [] t = "t3" -> 4
                                [] t = "t4" -> 3 [] t = "t6" -> 2 [] OTHER -> 0]
-DrainsAll == [t \in TxAll |-> IF t = "t2" THEN {"t1"} ELSE {}]
+\* once t1 is on chain payer A has nothing left: neither t2 nor t1 itself (offered again) passes preExecCheck
+DrainsAll == [t \in TxAll |-> IF t \in {"t1", "t1b", "t2"} THEN {"t1"} ELSE {}]
 
 KindsH == {"http"}
 KindsHN == {"http", "net"}
@@ -23,19 +24,40 @@ BlocksQ == {<<>>, <<"t1">>, <<"t3">>, <<"t1", "t3">>}
 VListsQ == {<<"t1">>, <<"t1", "t1">>, <<"t1b">>, <<"t2", "t3">>, <<"t5">>}
 
 StaleQ == {"t1"}
-\* tiny (edge cover of the quick tier): payer A's pair and the bad-signature twin
-SubmitS == {"t1", "t1b", "t2"}
+NoStale == {}
+ByCountT == {TRUE}
+ByCountTF == {TRUE, FALSE}
+\* tiny (quick tier, every edge replayed; pre-execution on): payer A's pair - t2 becomes unpayable when t1 is on chain
+SubmitS == {"t1", "t2"}
 BlocksS == {<<>>, <<"t1">>}
-VListsS == {<<"t1">>, <<"t1", "t1">>, <<"t2", "t5">>, <<"t2", "t1b">>}
+VListsS == {<<"t1">>, <<"t1", "t1">>, <<"t2", "t5">>}
+\* mini (quick tier, every edge replayed; pre-execution off: cleanTransactionList without Remain()/re-verification):
+\* t1, its bad-signature twin, submissions with stale admission checks, re-submission of an on-chain transaction
+SubmitN == {"t1", "t1b"}
+BlocksN == {<<>>, <<"t1">>}
+VListsN == {<<"t1">>, <<"t1b">>, <<"t2", "t1b">>}
+\* small (thorough, every edge replayed)
+SubmitM == {"t1", "t1b", "t2"}
+BlocksM == {<<>>, <<"t1">>, <<"t2">>}
+VListsM == {<<"t1">>, <<"t1", "t1">>, <<"t2", "t5">>, <<"t2", "t1b">>}
+
+\* witness of the pending-limit deviation: three independent valid transactions besides t1
+SubmitW == {"t1", "t3", "t4", "t6"}
+BlocksW == {<<"t1">>}
+VListsW == {<<"t1">>}
 
 \* thorough
 StaleT == {"t1", "t2", "t3"}
 SubmitT == {"t1", "t1b", "t2", "t3", "t4", "t5"}
-BlocksT == {<<>>, <<"t1">>, <<"t2">>, <<"t3">>, <<"t1", "t3">>, <<"t3", "t2">>}
+\* (payer balances are abstracted by Drains: a block with t2 BEFORE t1 would make t1's transfer fail and leave payer A
+\* solvent, so t2 is never put into a block here; the single-block configuration M has the block <<t2>>)
+BlocksT == {<<>>, <<"t1">>, <<"t3">>, <<"t1", "t3">>, <<"t6">>, <<"t3", "t6">>}
 VListsT == {<<"t1">>, <<"t1", "t1">>, <<"t1", "t1b">>, <<"t1b">>, <<"t2", "t3">>, <<"t3", "t1">>, <<"t4">>, <<"t3", "t5">>}
 
 Edge == PrintT(<<"EDGE", ToJson([from |-> State, act |-> act', to |-> State'])>>)
 InitOut == (TLCGet("level") = 1) => PrintT(<<"INIT", ToJson(State)>>)
+\* error traces (witness runs) as JSON: one line per state
+Alias == [j |-> ToJson([act |-> act, st |-> State])]
 \* simulation (thorough): one line per step of a random walk, the python side cuts walks at level 1
 Row == PrintT(<<"ROW", ToJson([lvl |-> TLCGet("level"), from |-> State, act |-> act', to |-> State'])>>)
 =============================================================================
